@@ -40,14 +40,18 @@ def spec_graph(unified):
         if isinstance(r, ProvElement):
             declared[(r.get_type().localpart, r.identifier.uri)] += 1
             by_id.setdefault(r.identifier.uri, set()).add(r.get_type().localpart)
-    # an undeclared endpoint gets ONE inferred node; its kind is inferred from whichever relation mentions it first,
-    # so every kind some relation would infer for that URI is acceptable
+    # an undeclared endpoint gets ONE inferred node
+    # ("nothing is re-typed"): only a relation that becomes an edge -- both of its first two arguments present -- can give an
+    # undeclared endpoint its node, and the first such relation in record order decides the node's kind
     inferable = {}
     for r in unified.records:
         if isinstance(r, ProvRelation):
-            for (a, q) in r.formal_attributes[:2]:
-                if q is not None and a.localpart in ENDPOINT_KIND:
-                    inferable.setdefault(q.uri, set()).add(ENDPOINT_KIND[a.localpart])
+            pair = r.formal_attributes[:2]
+            if any(q is None for (_a, q) in pair):
+                continue
+            for (a, q) in pair:
+                if a.localpart in ENDPOINT_KIND and q.uri not in by_id and q.uri not in inferable:
+                    inferable[q.uri] = {ENDPOINT_KIND[a.localpart]}
     edges = []       # (src uri, dst uri, strict relation, allowed src kinds, allowed dst kinds, optional?)
     for r in unified.records:
         if not isinstance(r, ProvRelation):
